@@ -83,6 +83,13 @@ impl<T> ResourceStorage<T> {
 	pub fn is_empty(&self) -> bool {
 		self.resources.is_empty()
 	}
+
+	/// Returns `true` if resources have been handed over by the game thread
+	/// but not picked up by [`remove_and_add`](Self::remove_and_add) yet.
+	#[must_use]
+	pub fn has_pending(&self) -> bool {
+		!self.new_resource_consumer.is_empty()
+	}
 }
 
 impl<'a, T> IntoIterator for &'a mut ResourceStorage<T> {
